@@ -771,6 +771,9 @@ func liftTri(c *Ctx, fn *ssa.Function, HP *Prover, I, J Poly) bool {
 // storage of an existing graph may therefore only be tested against zero (or moved by a bulk
 // copy); using its numeric value (adding it to a count, xor, packing it into bits) silently
 // assumes it is 0 or 1.
+// constructors whose []byte argument is adjacency storage (other []byte arguments are encodings)
+var edgeByteCtors = map[string]bool{"graph.NewDense": true}
+
 func ruleEdgeByte(c *Ctx, pkgRel string) *RuleResult {
 	r := &RuleResult{Rule: "EDGEBYTE", Doc: "a byte read from the adjacency storage of an existing DenseGraph is only ever compared with zero; its numeric value is never used (NewDense accepts any non-zero byte as an edge)", MinInst: 1}
 	gp := c.ByPath[c.Mod+"/graph"]
@@ -871,6 +874,18 @@ func ruleEdgeByte(c *Ctx, pkgRel string) *RuleResult {
 					}
 					if _, isParam := holder.(*ssa.Parameter); isParam {
 						input = true
+					}
+				}
+				// the adjacency bytes a constructor is handed: a []byte parameter of a function that
+				// returns a *DenseGraph (NewDense's edges) - the caller's bytes are the same indicators
+				if prm, isParam := base.(*ssa.Parameter); isParam && !input && edgeByteCtors[c.short(fn)] {
+					res := fn.Signature.Results()
+					for i := 0; i < res.Len(); i++ {
+						if pt, ok := res.At(i).Type().(*types.Pointer); ok && types.Identical(pt.Elem(), denseT) {
+							if sl, ok := prm.Type().Underlying().(*types.Slice); ok && isByte(sl.Elem()) {
+								input = true
+							}
+						}
 					}
 				}
 				if !input {
